@@ -940,13 +940,16 @@ var _ rpc.Resources
 //@   safety[C15]
 
 // retryStaleAccess: without the stale mark nothing happens; with it the mark is cleared, the
-// waiting list is emptied and every waiting callback is handed to a new access request.
+// waiting list is emptied and every waiting callback is handed to a new access request, which is
+// governed by the throttle of the system reset that made the answer stale; a deferred check keeps
+// that throttle.
 //@ func (*Subscription).retryStaleAccess
 //@   requires s != nil && s.c != nil && predConnOK(s.c.(*wsConn))
 //@   ensures[C05,C06] old(s.flags & flagAccessStale) == 0 ==> !result && s.flags == old(s.flags) && s.accessCallbacks == old(s.accessCallbacks) &&
 //@       s.access == old(s.access) && callcount("loadAccess") == old(callcount("loadAccess")) && invoked() == old(invoked())
 //@   ensures[C05,C06,C07] old(s.flags & flagAccessStale) != 0 ==> result && callcount("loadAccess") == old(callcount("loadAccess")) + len(cbs)
-//@   assert[C05,C06] s.loadAccess#1: arg1 == nil && (rangeidx1 == 0 ==> arg0 == cbs[0] && s.flags & flagAccessStale == 0)
+//@   ensures[C19] old(s.flags & flagAccessStale) == 0 || old(s.flags & flagReaccess) != 0 ==> s.reaccessThrottle == old(s.reaccessThrottle)
+//@   assert[C05,C06,C19] s.loadAccess#1: arg1 == old(s.reaccessThrottle) && (rangeidx1 == 0 ==> arg0 == cbs[0] && s.flags & flagAccessStale == 0)
 //@   safety[C15]
 //@   loop 1 assume s.c != nil && predConnOK(s.c.(*wsConn))
 //@   loop 1 invariant callcount("loadAccess") == old(callcount("loadAccess")) + rangeidx1
@@ -1388,6 +1391,9 @@ var _ rpc.Resources
 //@   ensures[C04,C05,C06] s.access == nil && s.flags & flagReaccess == 0
 // (an access request already in flight was made before this trigger: its answer is stale)
 //@   ensures[C05,C06] old(s.flags & flagAccessCalled) != 0 ==> s.flags & flagAccessStale != 0
+// (the request that will replace that answer is a re-access request of this trigger: it is
+// governed by the trigger's throttle)
+//@   ensures[C19] old(s.flags & flagAccessCalled) != 0 && t != nil ==> s.reaccessThrottle == t
 //@   ensures[C06] old(s.direct) == 0 ==> s.queueFlag == old(s.queueFlag) && s.accessCallbacks == old(s.accessCallbacks)
 //@   ensures[C06] predSubsStable()
 //@   ensures[C06] forall x *Subscription :: x != s ==> x.access == old(x.access) && x.flags == old(x.flags)
